@@ -231,7 +231,56 @@ def run_case(sc) -> Result:
     return res
 
 
+def enum_core(shard, nshards):
+    """every end mode x population x concurrent accept (no/yes) x shutdown offset, each followed by a plain episode that must
+    start and stop again (restart after every kind of exit)"""
+    idx = 0
+    for end in ("shutdown-outside", "shutdown-thread", "sigint", "failure-exc", "failure-ret", "failure+shutdown", "sigint+shutdown"):
+        for population in ("none", "coroutines", "blocked-threads", "stubborn"):
+            for naccept in (0, 1):
+                for at in (0, 12):
+                    idx += 1
+                    if idx % nshards != shard:
+                        continue
+                    payloads = [{"id": 100 + i, "flavour": f, "role": "heartbeat", "reg": {"how": "pre"}, "program": [["beat", 3, 1000000]], "end": ["forever"], "cleanup": {}}
+                                for i, f in enumerate(ALL)]
+                    if population == "coroutines":
+                        payloads += [{"id": 200, "flavour": "asyncio", "role": "sleeper", "reg": {"how": "pre"}, "program": [["sleep", 600000]], "end": ["forever"], "cleanup": {"sync_ms": 30}},
+                                     {"id": 201, "flavour": "trio", "role": "sleeper", "reg": {"how": "pre"}, "program": [["sleep", 600000]], "end": ["forever"], "cleanup": {"sync_ms": 0, "shield_ms": 60}}]
+                    elif population == "blocked-threads":
+                        payloads.append({"id": 200, "flavour": "threading", "role": "blocked", "reg": {"how": "pre"}, "program": [["block", 60000]], "end": ["return", "None"]})
+                    elif population == "stubborn":
+                        payloads.append({"id": 200, "flavour": "asyncio", "role": "sleeper", "reg": {"how": "pre"}, "program": [["sleep", 600000]], "end": ["forever"], "cleanup": {}, "stubborn": 2})
+                    script = []
+                    shift = 25 if naccept else 0
+                    if naccept:
+                        script += [{"at_ms": 1, "op": "accept2", "same": False}, {"at_ms": 8, "op": "await-beats", "pids": [100, 101, 102], "k": 2, "timeout_ms": 5000, "name": "after-accept2"}]
+                    mode = end
+                    if end in ("shutdown-outside",):
+                        script.append({"at_ms": at + shift, "op": "shutdown"})
+                    elif end == "shutdown-thread":
+                        payloads.append({"id": 500, "flavour": "threading", "role": "shutter", "reg": {"how": "outside"}, "program": [["shutdown"]], "end": ["return", "None"]})
+                        script.append({"at_ms": at + shift, "op": "adopt", "pid": 500})
+                    elif end.startswith("sigint"):
+                        script.append({"at_ms": at + shift, "op": "sigint"})
+                        if end == "sigint+shutdown":
+                            script.append({"at_ms": at + shift + 30, "op": "shutdown"})
+                    else:
+                        mode = "failure" if end != "failure+shutdown" else end
+                        payloads.append({"id": 1, "flavour": ALL[idx % 3], "role": "failing", "kind": "ret" if end == "failure-ret" else "exc", "reg": {"how": "pre"},
+                                         "program": [["sleep", at + shift]], "end": ["return", "0"] if end == "failure-ret" else ["raise", "KeyError"]})
+                        if end == "failure+shutdown":
+                            script.append({"at_ms": at + shift + 20, "op": "shutdown"})
+                    first = {"runner": "service", "accept_delay": 0.01, "payloads": payloads, "drivers": [script], "linger_ms": 20,
+                             "trigger": {"mode": mode, "at_ms": at + shift}, "population": population, "naccept": naccept, "heartbeats": [100, 101, 102]}
+                    second = {"runner": "service", "accept_delay": 0.01, "payloads": [], "drivers": [[{"at_ms": 5, "op": "shutdown"}]], "linger_ms": 10,
+                              "trigger": {"mode": "shutdown-outside", "at_ms": 5}, "population": "none", "naccept": 0, "heartbeats": []}
+                    yield {"episodes": [first, second], "switchinterval": None, "bound_s": BOUND}
+
+
 def tests(tier):
-    t = [TestDef("histories", run_case, strategy=history(), quick=320, thorough=10000, shards_quick=16, shrink_budget=30, slow=True)]
-    t[0].replay_runs = 10
+    t = [TestDef("histories", run_case, strategy=history(), quick=320, thorough=10000, shards_quick=16, shrink_budget=30, slow=True),
+         TestDef("exhaustive-core", run_case, enumerate=enum_core, exhaustive=True, shards_quick=16, shards_thorough=16)]
+    for td in t:
+        td.replay_runs = 10
     return t
